@@ -109,7 +109,7 @@ def make_recipes(tier: str, seed: int, infos: dict):
         toks = sorted(T)
         pairs = list(itertools.combinations(toks, 2))
         rng.shuffle(pairs)
-        npairs = {"quick": 70, "thorough": len(pairs)}[tier]
+        npairs = {"quick": 70, "thorough": 240}[tier]
         for a, b in pairs[:npairs]:
             add(f"{a},{b}", [T[a], T[b]])
             add(f"{b},{a}", [T[b], T[a]])
@@ -600,18 +600,31 @@ class Classes:
         return self.n
 
 
+def _stmts_bucket(sts):
+    """Order-insensitive projection of the statements, used only to narrow down the candidates that pharmpy's == then
+    decides on (the compartmental system compares by graph content, so nodes and edges are sorted here)."""
+    out = []
+    for st in sts:
+        p = M._stmt_proj(st)
+        if p and p[0] == "ODE":
+            p = ("ODE", p[1], sorted(map(repr, p[2])), sorted(map(repr, p[3])))
+        out.append(repr(p))
+    return (len(out), M._sha(out))
+
+
 def classify(models):
-    """sigma per model: m by Model == and equal dataset; p, r, s, e by component ==; d by dataset digest."""
+    """sigma per model: m by Model == and equal dataset; p, r, s, e by component ==; d by dataset digest.  The buckets
+    only pre-select candidates; membership in a class is always decided by pharmpy's own ==."""
     cp, cr, cs, ce, cm = Classes(), Classes(), Classes(), Classes(), Classes()
     dd: dict = {}
     sig = []
     for m in models:
         d = M.digest_df(m.dataset)
         dd.setdefault(d, len(dd) + 1)
-        p = cp.of(m.parameters, tuple(m.parameters.names))
-        r = cr.of(m.random_variables, tuple(m.random_variables.names))
-        s = cs.of(m.statements, len(m.statements))
-        e = ce.of(m.execution_steps, len(m.execution_steps))
+        p = cp.of(m.parameters, M._sha(M._params_proj(m.parameters)))
+        r = cr.of(m.random_variables, M._sha(M._rvs_proj(m.random_variables)))
+        s = cs.of(m.statements, _stmts_bucket(m.statements))
+        e = ce.of(m.execution_steps, M._sha(repr(_norm(m.execution_steps.to_dict()))))
         mm = cm.of(m, (p, r, s, e, dd[d]))
         sig.append({"m": mm, "p": p, "r": r, "s": s, "e": e, "d": dd[d]})
     return sig, sum(c.errors for c in (cp, cr, cs, ce, cm))
@@ -768,9 +781,11 @@ def main(tier: str, seed: int) -> int:
     sample = [r for r, b in ok if r["steps"] and all("f" in s or s.get("op") in ("@cs", "@path") for s in r["steps"])]
     rng.shuffle(sample)
     rebuild = sample[: {"quick": 24, "thorough": 150}[tier]]
+    t_built = time.time() - t0
     d = core.scratch("c12kids")
     kids = _children([b["pickle"] for r, b in ok], [r["hist"] for r, b in ok], rebuild, d)
     shutil.rmtree(d, ignore_errors=True)
+    t_kids = time.time() - t0 - t_built
     probes = {s: k["probe"] for s, k in kids.items()}
     if len(set(probes.values())) < 2:
         raise core.MachineryError(f"hash seeds had no effect: {probes}")
@@ -855,6 +870,14 @@ def main(tier: str, seed: int) -> int:
                     diffs = [{"field": "?", "in": None, "in_ode": False, "detail": type(ex).__name__}]
                 if x["why"] == "different_content_same_key":
                     case["listed_diff"] = [c for c in "prsed" if me[1][c] != other[1][c]]
+                    comp = {"p": "parameters", "r": "random_variables", "s": "statements", "e": "execution_steps"}
+                    try:
+                        really = [c for c in case["listed_diff"] if c == "d" or not (getattr(me[0], comp[c]) == getattr(other[0], comp[c]))]
+                    except Exception:
+                        really = case["listed_diff"]
+                    if not really:  # the pre-selection split one ==-class: not an observation about pharmpy
+                        v.notes.append(f"classification artefact ignored: {e['hist']} vs {o['hist']} are == in all listed components")
+                        continue
             what = (f"{x['why']}: history {e['hist']} ({e['proc']}, seed {e['seed']}) vs {o['hist']} ({o['proc']}, seed {o['seed']}); "
                     f"observations differ in {differs}")
             # one case per distinct difference of the dictionary forms (so that an additional cause is not hidden)
@@ -915,7 +938,7 @@ def main(tier: str, seed: int) -> int:
         hash_seed_probes=probes,
         processes=["parent (PYTHONHASHSEED=%s)" % os.environ.get("PYTHONHASHSEED")] + [f"child PYTHONHASHSEED={s}" for s in kids],
         tlc_exploration=ex,
-        build_wall_s=round(t_build, 1), build_cpu_s=round(sum(b.get('cpu', 0) for r, b in ok), 1),
+        build_wall_s=round(t_build, 1), phase_wall_s={'build_histories': round(t_built, 1), 'hash_interpreters': round(t_kids, 1), 'classify_and_events': round(t_build - t_built - t_kids, 1)}, build_cpu_s=round(sum(b.get('cpu', 0) for r, b in ok), 1),
         rule="non-trivial = distinct content classes (pharmpy == and equal dataset) among the models built; every key computation and every round trip is one event of the validated trace",
         samples=[{k: e[k] for k in ("hist", "label", "proc", "seed", "m", "p", "r", "s", "e", "d", "k")} for e in events[:3]] + [{k: e[k] for k in ("via", "what", "cin", "cout", "hist")} for e in rts[:2]],
         exhaustive=False,
